@@ -184,6 +184,39 @@ def case(chk, i):
                    sample={"roots": g.roots, "read": sorted(g.expected), "not_read": sorted(g.not_read), "via": via} if (special and i % 7 == 0) else None)
 
 
+def forced_include_case(chk, k):
+    """files pulled in by the user's own `-include` / `-imacros` clang arguments are read like any other: they belong in the depfile and in
+    the callbacks (the inclusion directive sits in clang's <built-in> buffer, which the parser otherwise skips)"""
+    d = chk.dir("forced%d" % k)
+    os.makedirs(os.path.join(d, "inc"), exist_ok=True)
+    write(os.path.join(d, "inc", "other.h"), "int other;\n")
+    write(os.path.join(d, "inc", "viaforced.h"), "int via_forced;\n")
+    write(os.path.join(d, "forced.h"), '#include "inc/viaforced.h"\nint forced;\n#define FROM_FORCED 1\n')
+    write(os.path.join(d, "macros.h"), "#define FROM_IMACROS 2\n")
+    write(os.path.join(d, "m.h"), '#include "inc/other.h"\nint main_decl;\n')
+    form = [["-include", "forced.h"], ["-include", os.path.join(d, "forced.h")], ["-include", "forced.h", "-imacros", "macros.h"], ["--include=forced.h"],
+            ["-includeforced.h"]][k]
+    name = "forced-include-%d" % k
+    depfile, out_rs = os.path.join(d, "out.d"), os.path.join(d, "out.rs")
+    rc, so, se, _ = sh([build.BINDGEN, "m.h", "--depfile", depfile, "-o", out_rs, "--"] + form, timeout=120, cpu=100, cwd=d)
+    if rc != 0:
+        return Verdict(INCONCLUSIVE, name, "bindgen failed: " + se[-300:])
+    btext = open(out_rs).read()
+    if "forced" not in btext:
+        return Verdict(INCONCLUSIVE, name, "the forced include had no effect on the bindings (form %s not understood by clang?)" % form)
+    tgt, prereqs = lex_depfile(open(depfile).read())
+    got = set(real(p, d) for p in prereqs)
+    want = {real(os.path.join(d, x)) for x in ["m.h", "inc/other.h", "forced.h", "inc/viaforced.h"] + (["macros.h"] if "-imacros" in form else [])}
+    files = {"out.d": open(depfile).read(), "cmd.txt": " ".join(["m.h", "--"] + form), "bindings.rs": btext}
+    obs = {"forced_include_cases": 1, "prerequisites_compared": len(got)}
+    if want - got:
+        return Verdict(VIOLATED, name, "files read through %s are missing from the depfile: %s" % (form, sorted(os.path.relpath(x, real(d)) for x in want - got)),
+                       files=files, obs=obs, signature="c17.forced-include-not-reported")
+    if got - want:
+        return Verdict(VIOLATED, name, "depfile lists unexpected paths: %s" % sorted(got - want), files=files, obs=obs)
+    return Verdict(HELD, name, obs=obs, nontrivial=True, key=name)
+
+
 def cargo_case(chk, i):
     """CargoCallbacks: one rerun-if-changed line per reported file, one rerun-if-env-changed per consulted variable."""
     rng = chk.rng("cargo", i)
@@ -243,6 +276,7 @@ def cargo_case(chk, i):
 
 
 def run(chk):
+    chk.map(lambda k: forced_include_case(chk, k), range(5))
     chk.map(lambda i: case(chk, i), range(chk.pick(120, 1500)), budget_s=chk.pick(400, 2400))
     chk.map(lambda i: cargo_case(chk, i), range(chk.pick(12, 100)), budget_s=chk.pick(200, 900))
     return chk.finish(
